@@ -71,10 +71,43 @@ Theorem C17_set_isolated : forall f id b ft f' rs,
   exists rs', effective f' = Some rs' /\ length rs' = length rs /\
     forall i r, nth_error rs i = Some r ->
       exists r', nth_error rs' i = Some r' /\
-        r_id r' = r_id r /\ r_name r' = r_name r /\ r_ftombs r' = r_ftombs r /\ r_other r' = r_other r /\
+        r_id r' = r_id r /\ r_name r' = r_name r /\ r_ftombs r' = r_ftombs r /\ r_meta r' = r_meta r /\ r_other r' = r_other r /\
         (r_id r <> id -> r' = r) /\ (r_id r = id -> r_tomb r' = b).
 Proof. exact set_isolated. Qed.
 Print Assumptions C17_set_isolated.
+
+(** "affects only that repository" at the level of RESULTS (the clause a red-team change to simplifyMultiRepo
+    violated): after a successful Set/UnsetTombstone(id) and a reload, for EVERY query (repo-level atoms are
+    arbitrary predicates on id, name and metadata) the search results belonging to every other repository are
+    identical ... *)
+Theorem C17_other_repositories_search_unchanged : forall f id b ft f' v v',
+  set_tombstone f id b ft = (f', Ok tt) -> load f = Some v -> load f' = Some v' ->
+  forall q i r d, r_id r <> id ->
+    (In (i, r, d) (search v' q) <-> In (i, r, d) (search v q)).
+Proof. exact search_isolated. Qed.
+Print Assumptions C17_other_repositories_search_unchanged.
+
+(** ... and so is the listing of every other repository that has at least one visible document and does not
+    share its name with the repository operated on *)
+Theorem C17_other_repositories_list_unchanged : forall f id b ft f' v v',
+  set_tombstone f id b ft = (f', Ok tt) -> load f = Some v -> load f' = Some v' ->
+  forall q r, r_id r <> id ->
+    (exists k d, nth_error (v_docs v) k = Some d /\ visible (v_repos v) d = Some r) ->
+    (forall r', In r' (v_repos v) -> r_name r' = r_name r -> r_id r' <> id) ->
+    (In r (list_repos v' q) <-> In r (list_repos v q)).
+Proof. exact list_isolated. Qed.
+Print Assumptions C17_other_repositories_list_unchanged.
+
+(** the hypothesis "has a visible document" cannot be dropped: FINDING (known-findings key
+    others-results-changed:list:repo-without-visible-documents) — List(RepoSet{r1}) on a shard {r1 (no
+    documents), r2} is empty, after SetTombstone(r2) it lists r1. *)
+Theorem C17_other_repositories_list_unchanged_without_documents_refuted :
+  exists (f : fs) (id : N) (f' : fs) (v v' : view) (q : query) (r : repo),
+    set_tombstone f id true NoFault = (f', Ok tt) /\ load f = Some v /\ load f' = Some v' /\ wf f /\
+    r_id r <> id /\ NoDup (map r_name (v_repos v)) /\
+    ~ In r (list_repos v q) /\ In r (list_repos v' q).
+Proof. exact list_isolated_without_documents_refuted. Qed.
+Print Assumptions C17_other_repositories_list_unchanged_without_documents_refuted.
 
 Theorem C17_documents_and_temp_files_untouched : forall f id b ft,
   fs_shard (fst (set_tombstone f id b ft)) = fs_shard f /\
@@ -115,11 +148,11 @@ Theorem C17_wf_preserved : forall f id b ft, wf f -> wf (fst (set_tombstone f id
 Proof. exact wf_preserved. Qed.
 Print Assumptions C17_wf_preserved.
 
-(** ---- non-vacuity: a compound shard with two repositories, a file tombstone, a sidecar-less start *)
-Definition ex_sh := mkShard [mkRepo 1 1 false [] 10; mkRepo 2 2 false [5%N] 20]
-                            [mkDoc 0 3 [0%N]; mkDoc 1 5 [0%N]; mkDoc 1 4 [0%N; 1%N]].
+(** ---- non-vacuity: a compound shard with three repositories, a file tombstone, a sidecar-less start *)
+Definition ex_sh := mkShard [mkRepo 1 1 false [] [(0%N, 1%N)] 10; mkRepo 2 2 false [5%N] [] 20; mkRepo 3 3 false [] [] 30]
+                            [mkDoc 0 3 [0%N]; mkDoc 1 5 [0%N]; mkDoc 1 4 [0%N; 1%N]; mkDoc 2 3 [2%N]].
 Definition ex_fs := mkFs (Some ex_sh) None 0.
-Definition ex_q := QAnd (QDoc (fun d => memN 0 (d_words d))) (QNot (QRepo (fun n => N.eqb n 9))).
+Definition ex_q := QAnd (QDoc (fun d => memN 0 (d_words d))) (QNot (QRepo (fun k => N.eqb (k_name k) 9))).
 
 Example ex_wf : wf ex_fs.
 Proof. unfold wf, ex_fs; simpl. split; [repeat constructor|exact I]. Qed.
@@ -137,7 +170,18 @@ Example ex_search_after :
   option_map (fun v => map (fun x => fst (fst x)) (search v ex_q)) (load (fst (set_tombstone ex_fs 2 true NoFault))) = Some [0%N].
 Proof. vm_compute. reflexivity. Qed.
 Example ex_list_after :
-  option_map (fun v => map r_id (list_repos v (QConst true))) (load (fst (set_tombstone ex_fs 2 true NoFault))) = Some [1%N].
+  option_map (fun v => map r_id (list_repos v (QConst true))) (load (fst (set_tombstone ex_fs 2 true NoFault))) = Some [1%N; 3%N].
+Proof. vm_compute. reflexivity. Qed.
+(* isolation of results: RepoIDs{1,2}; repositories 1 and 2 match, 3 does not; tombstoning 2 keeps 3 out and 1's results *)
+Definition ex_q12 := QRepo (fun k => memN (k_id k) [1%N; 2%N]).
+Example ex_isolated_before :
+  option_map (fun v => (map (fun x => fst (fst x)) (search v ex_q12), map r_id (list_repos v ex_q12))) (load ex_fs)
+  = Some ([0%N; 2%N], [1%N; 2%N]).
+Proof. vm_compute. reflexivity. Qed.
+Example ex_isolated_after :
+  option_map (fun v => (map (fun x => fst (fst x)) (search v ex_q12), map r_id (list_repos v ex_q12)))
+             (load (fst (set_tombstone ex_fs 2 true NoFault)))
+  = Some ([0%N], [1%N]).
 Proof. vm_compute. reflexivity. Qed.
 (* hypotheses of C17_inverse_restores / C17_set_idempotent are satisfiable *)
 Example ex_inverse :
@@ -149,5 +193,5 @@ Example ex_rename_fails : set_tombstone ex_fs 2 true RenameFails = (ex_fs, Err 3
 Proof. reflexivity. Qed.
 Example ex_history :
   snd (run_hist ex_fs [(2%N, true, RenameFails); (1%N, true, NoFault); (2%N, true, CreateTempFails)]) = [Err 3; Ok tt; Err 2]
-  /\ option_map (map r_tomb) (effective (fst (run_hist ex_fs [(2%N, true, RenameFails); (1%N, true, NoFault); (2%N, true, CreateTempFails)]))) = Some [true; false].
+  /\ option_map (map r_tomb) (effective (fst (run_hist ex_fs [(2%N, true, RenameFails); (1%N, true, NoFault); (2%N, true, CreateTempFails)]))) = Some [true; false; false].
 Proof. split; reflexivity. Qed.
